@@ -35,7 +35,14 @@ def factorize_arrow_arr(
     if isinstance(arr, pa.ChunkedArray):
         arr = arr.combine_chunks()
 
-    codes = arr.indices.to_numpy(zero_copy_only=False)
+    # null keys have a null index: give them the null code -1 (to_numpy alone
+    # would turn the indices into floats with NaN)
+    codes = (
+        arr.indices.cast(pa.int64())
+        .fill_null(-1)
+        .to_numpy(zero_copy_only=False)
+        .astype(np.int64)
+    )
     labels = pd.Index(arr.dictionary.to_pandas(types_mapper=pd.ArrowDtype), name=name)
 
     return codes, labels
